@@ -400,6 +400,7 @@ def _parity_np(v):
     return (v & U64(1)) ^ U64(1)
 
 
+MEMHOOK = None        # optional memory model: f(address lanes, size, salt) -> value lanes
 SEGAWARE = False     # C15/C16 set this: a segment override selects a different address space
 
 
@@ -421,6 +422,8 @@ def ev_np(t, ids, salt=0, lanes=None):
         return ids[t[1]] & _m(t[2])
     if k == 'mem':
         a = ev_np(t[1], ids, salt, lanes)
+        if MEMHOOK is not None:
+            return MEMHOOK(a, t[2], salt)
         v = np.zeros(lanes, dtype=U64)
         ss = salt + 7 * _segsalt(t[3])
         for i in range(t[2] // 8):
@@ -548,3 +551,21 @@ def selfcheck():
     for i in range(4):
         assert int(r[i]) == ev_int(t, Env({'a': int(aa[i])}, salt=1))
     return True
+
+
+def mem_with_cells(cells):
+    """memory model for ev_np: default bytes overridden by cells = [(address lanes, size, value lanes)]
+    (later cells win, byte granularity, little endian)"""
+    def f(a, size, salt):
+        v = np.zeros(len(a), dtype=U64)
+        for i in range(size // 8):
+            ad = (a + U64(i)) & U64(0xffffffff)
+            byte = np_membyte(ad, salt)
+            for (ca, cs, cv) in cells:
+                off = (ad - ca) & U64(0xffffffff)
+                inside = off < U64(cs // 8)
+                sh = np.where(inside, off, U64(0)) * U64(8)
+                byte = np.where(inside, (cv >> sh) & U64(0xff), byte)
+            v |= byte << U64(8 * i)
+        return v
+    return f
